@@ -47,6 +47,7 @@ def run(chk):
     chk.rule("R6", "join rejects: different back ends, grouped inputs, common ancestor, user-suffix collision, non-boolean on, window functions in on")
     chk.rule("R7", "equality predicates are oriented (left, right) before Polars join(left_on=, right_on=)")
     chk.rule("R8v", "Polars join interpreted on schema-level frame stubs (5 collision shapes of hidden / visible names x equality, inequality, cross paths x inner / left): visible columns keep their names, the name map is injective and points into the joined frame, nothing is lost")
+    chk.rule("R9v", "split_join_cond interpreted: `a & b & c`, `pdt.all(a, b, c)` and nested forms split into all their predicates (each exactly once)")
     chk.rule("R8h", "rename_overwritten_cols: one fresh-name map over the colliding names renames the frame and rewrites the uuid -> name map")
     chk.rule("R8", "Polars join: after the renaming passes no physical name is in both frames and visible names are unchanged (finite-state analysis over name classes)")
 
@@ -269,6 +270,18 @@ def run(chk):
         join_names_decided = True
         chk.ob("R8v", pol, pcfg.func, "polars Join branch on frame stubs", False, f"setting up the Join branch raises {p_.name}: {p_.msg}")
 
+    # ---- R9v split_join_cond by interpretation
+    from ..pipesim import RealWorld as _RW6, split_cond_scenarios as _scs
+
+    tim = repo.mod("backend.table_impl")
+    try:
+        for desc, ok_, detail in _scs(_RW6(repo, _mte(m))):
+            chk.ob("R9v", tim, tim.func("split_join_cond"), desc, ok_, detail)
+    except (AnalysisError, _SB) as e:
+        chk.undecided.append(f"R9v: split_join_cond could not be interpreted ({str(e)[:140]})")
+    except _PR as p_:
+        chk.ob("R9v", tim, tim.func("split_join_cond"), "split_join_cond on stub conditions", False, f"split_join_cond raises {p_.name}: {p_.msg}")
+
     pstmts = [it.node if isinstance(it, Cond) else it for it in items]
     try:
         if join_names_decided:
@@ -341,7 +354,14 @@ def _join_scenarios(chk, m):
         ("grouped right input", cols("a"), cols("b"), "r", dict(rg=("b",)), ("raise", "ValueError")),
         ("common ancestor", cols("a"), cols("b"), "r", dict(shared=True), ("raise", "ValueError")),
         ("user suffix collides with a left name", cols("a", "a_x"), cols("a"), "r", dict(suffix="_x"), ("raise", "ValueError")),
+        ("user suffix: the suffixed name of a non-clashing right column equals a left name", cols("k", "v_x"), cols("k2", "v"), "r", dict(suffix="_x"), ("raise", "ValueError")),
         ("user suffix, no collision", cols("a", "b"), cols("a", "c"), "r", dict(suffix="_x"), ("names",)),
+        # keys with different names, a right non-key column named like the left key: something besides the join columns
+        # clashes, so every right column gets the suffix
+        ("differently named keys, a non-key right column clashes", cols("id", "dept"), cols("boss_id", "id", "salary"), "r",
+         dict(on=[("id", "boss_id")], expect_right=["boss_id_r", "id_r", "salary_r"]), ("names",)),
+        ("same-named keys only clash", cols("id", "dept"), cols("id", "salary"), "r",
+         dict(on=[("id", "id")], expect_right=["id_r", "salary"]), ("names",)),
         ("disjoint names", cols("a", "b"), cols("c", "d"), "r", {}, ("names",)),
         ("one clashing name", cols("a", "b"), cols("a", "c"), "r", {}, ("names",)),
         ("suffixed name exists on the left", cols("a", "a_r"), cols("a"), "r", {}, ("names",)),
@@ -367,7 +387,28 @@ def _join_scenarios(chk, m):
                 right.attrs["_cache"].attrs["derived_from"] = set(right.attrs["_cache"].attrs["derived_from"]) | set(left.attrs["_cache"].attrs["derived_from"])
             # the literal `on` of an empty join condition: an object without sub-expressions
             lit = w.obj("Col", name="<lit>", _uuid="lit")
-            got = w.run(f, [left, right, [], "inner"], {"suffix": kw.get("suffix")})
+            on_arg = []
+            if kw.get("on"):
+                # predicates as stub nodes: `left.<l> == right.<r>` with just the protocol the verb uses on them
+                lcols = {c.attrs["name"]: c for c in left.attrs["_cache"].attrs["cols"].values()}
+                rcols = {c.attrs["name"]: c for c in right.attrs["_cache"].attrs["cols"].values()}
+                for c_ in list(lcols.values()) + list(rcols.values()):
+                    c_.attrs["iter_subtree_preorder"] = Native(lambda _c=c_: [_c], "iter")
+                for ln_, rn__ in kw["on"]:
+                    pred = w.obj("Col", name="<pred>", _uuid=f"pred-{ln_}-{rn__}")
+                    kids = [pred, lcols[ln_], rcols[rn__]]
+                    pred.attrs.update({
+                        "map_subtree": Native(lambda g, _p=pred: _p, "map_subtree"), "dtype": Native(lambda: DT("Bool"), "dtype"),
+                        "ftype": Native(lambda **k_: "EW", "ftype"), "iter_subtree_preorder": Native(lambda _k=kids: list(_k), "iter"),
+                        "iter_subtree_postorder": Native(lambda _k=kids: list(reversed(_k)), "iter"), "op": None,
+                    })  # fmt: skip
+                    on_arg.append(pred)
+                w.env["types"] = _ModuleNS({"without_const": Native(lambda d: d, "without_const")})
+                w.env["Bool"] = Native(lambda: DT("Bool"), "Bool")
+                w.env["functools"] = _ModuleNS({"reduce": Native(lambda fn_, rest, first: first, "reduce")})
+                w.env["operator"] = _ModuleNS({"and_": None})
+                w.env["Ftype"] = _ModuleNS({"ELEMENT_WISE": "EW"})
+            got = w.run(f, [left, right, list(on_arg), "inner"], {"suffix": kw.get("suffix")})
             n += 1
             if want[0] == "raise":
                 ok = got[0] == "raise" and got[1] == want[1]
@@ -383,7 +424,7 @@ def _join_scenarios(chk, m):
                 from ..interp import Func, PyRaise
 
                 try:
-                    w.it.call(Func(f, w.env, w.it), [left, right, [], "inner"], {"suffix": kw.get("suffix")}, f, w.env)
+                    w.it.call(Func(f, w.env, w.it), [left, right, list(on_arg), "inner"], {"suffix": kw.get("suffix")}, f, w.env)
                     ok, detail = False, "join returned without updating the cache"
                 except Accepted as a_:
                     lcache, _node, rcache = a_.args_
@@ -396,6 +437,8 @@ def _join_scenarios(chk, m):
                         problems.append(f"right names not unique / lost: {rn_}")
                     if set(rn_) & set(ln):
                         problems.append(f"names {sorted(set(rn_) & set(ln))} occur in both inputs after suffixing")
+                    if kw.get("expect_right") and rn_ != kw["expect_right"]:
+                        problems.append(f"right columns are named {rn_}, documented {kw['expect_right']} (only the clashing join columns are renamed when nothing else clashes, otherwise every right column gets the suffix)")
                     ok, detail = not problems, "; ".join(problems) or f"right names {rn_}"
                 except PyRaise as p_:
                     ok, detail = False, f"raises {p_.name}: {p_.msg}"
